@@ -1406,6 +1406,6 @@ fn check(ctx: &Ctx, c: &Case) -> CaseResult {
 }
 
 fn run(ctx: &Ctx) {
-    ctx.run("history", case_strategy(), ctx.cases(240, 3200), |c: &Case| check(ctx, c));
+    ctx.run("history", case_strategy(), ctx.cases(240, 1_600), |c: &Case| check(ctx, c));
     super::c09b::run(ctx);
 }
